@@ -232,6 +232,8 @@ class _PeriodProp(Contract):
         u, s, n = period_parts(a["self"])
         if u in self.raises_for or u == "eternity":
             return ("raise", exc(I, "ValueError"))
+        if u not in self.cases:
+            raise Unsupported(f"{self.name} of a {u} period is not under contract (cross-family)")
         ctx.assume(period_in_range(a["self"]))
         return ("return", B.wrap(ctx.fresh_int(self.result_base)))
 
@@ -239,6 +241,8 @@ class _PeriodProp(Contract):
         u, s, n = period_parts(a["self"])
         if u in self.raises_for or u == "eternity":
             return [("refused", raised(out, I, "ValueError"))]
+        if u not in self.cases:
+            return []
         if out[0] != "return":
             return [("no-exception", False)]
         try:
@@ -547,7 +551,9 @@ class PeriodGetSubperiods(Contract):
     name = f"{PER}.get_subperiods"
     prop = ("C04", "C03")
     top_level = True
-    cases = tuple((a, b) for a in DATED_UNITS for b in UNITS)
+    # cells the statement speaks about: same-family splits and refusals (cross-family splits: nothing asserted)
+    cases = tuple((a, b) for a in DATED_UNITS for b in UNITS
+                  if (a, b) in SAME_FAMILY_SPLITS or b == "eternity" or WEIGHT[a] < WEIGHT[b])
     descr = ("sub-periods of an equal or smaller unit of the same family from an aligned start are consecutive, "
              "non-overlapping, of size one and cover exactly the period; a coarser unit is refused")
 
@@ -625,10 +631,16 @@ class PeriodGetSubperiods(Contract):
         return res
 
     def outcomes(self, I, ctx, a, old):
-        from pyvc.values import SeqVal, SymList
+        from pyvc.values import SeqVal, SymList, ListVal
         p = a["self"]
         pu = period_parts(p)[0]
         unit = unit_name(a["unit"])
+        if pu == "eternity":
+            # helper contract derived from the code (the statement excludes eternal periods): the size -1 makes
+            # the year split empty, every other size raises
+            if unit == "year":
+                return ("return", ListVal([]))
+            return ("raise", exc(I, "ValueError"))
         if self.refused(pu, unit):
             return ("raise", exc(I, "ValueError"))
         if not self.claimed(pu, unit):
